@@ -63,3 +63,96 @@ package flv
 //@   ensures err == nil ==> out(w)[old(len(out(w)))] == 0x46 && out(w)[old(len(out(w)))+1] == 0x4c && out(w)[old(len(out(w)))+2] == 0x56 && out(w)[old(len(out(w)))+3] == 1
 //@   ensures err == nil ==> out(w)[old(len(out(w)))+4] == typeFlags & 0x05 && be32(out(w), old(len(out(w)))+5) == 9 && be32(out(w), old(len(out(w)))+9) == 0
 //@   ensures forall(i, 0, old(len(out(w))), out(w)[i] == old(out(w)[i]))
+
+// ---- VIDEODATA / AUDIODATA bodies (Annex E.4.3, E.4.2) and the packetisers (C08) ------------------------------------
+//@ import "github.com/cnotch/ipchub/av/codec"
+//@ spec func isAVC(v *VideoData) bool = v.CodecID == CodecIDAVC || v.CodecID == CodecIDHEVC
+// VIDEODATA: frame type / codec nibbles, packet type, 24-bit composition time, 32-bit NAL length, the unit verbatim
+//@ func (videoData *VideoData) Marshal() (out []byte, err error)
+//@   requires videoData != nil && len(videoData.Body) < 1<<31
+//@   modifies
+//@   fresh out
+//@   ensures err == nil && len(out) >= 1 && out[0] == (videoData.FrameType<<4)|(videoData.CodecID&0x0f)
+//@   ensures isAVC(videoData) ==> len(out) >= 5 && out[1] == videoData.H2645PacketType && be24(out, 2) == videoData.CompositionTime & 0xffffff
+//@   ensures isAVC(videoData) && videoData.H2645PacketType == H2645PacketTypeNALU ==> len(out) == 9 + len(videoData.Body) && int(be32(out, 5)) == len(videoData.Body) && forall(i, 0, len(videoData.Body), out[9+i] == videoData.Body[i])
+//@   ensures isAVC(videoData) && videoData.H2645PacketType != H2645PacketTypeNALU ==> len(out) == 5 + len(videoData.Body) && forall(i, 0, len(videoData.Body), out[5+i] == videoData.Body[i])
+// AUDIODATA: format / rate / size / type bits, AAC packet type, the frame verbatim
+//@ func (audioData *AudioData) Marshal() (out []byte, err error)
+//@   requires audioData != nil && len(audioData.Body) < 1<<31
+//@   modifies
+//@   fresh out
+//@   ensures err == nil && len(out) >= 1 && out[0] == (audioData.SoundFormat<<4)|((audioData.SoundRate&3)<<2)|((audioData.SoundSize&1)<<1)|(audioData.SoundType&1)
+//@   ensures audioData.SoundFormat == SoundFormatAAC ==> len(out) == 2 + len(audioData.Body) && out[1] == audioData.AACPacketType && forall(i, 0, len(audioData.Body), out[2+i] == audioData.Body[i])
+
+// tags(w): ghost sequence of the tags handed to a TagWriter, in order
+//@ extern func (w TagWriter) WriteFlvTag(tag *Tag) (err error)
+//@   requires tag != nil
+//@   modifies
+//@   appends ghostSeq(w, "tags"), tag
+
+// H.264: one tag per frame; key-frame flag exactly for an IDR slice (type 5); decode time in ms; composition offset
+// PTS-DTS in ms as a 24-bit two's complement value; the NAL unit length-prefixed and verbatim
+//@ func (h264p *h264Packetizer) Packetize(frame *codec.Frame) (err error)
+//@   requires h264p != nil && h264p.tagWriter != nil && frame != nil && len(frame.Payload) >= 1 && len(frame.Payload) < 1<<24
+//@   modifies ghostSeq(h264p.tagWriter, "tags")
+//@   local tag *Tag
+//@   assert[call:WriteFlvTag] tag != nil && tag.TagType == TagTypeVideo && tag.Timestamp == uint32(frame.Dts/1000000) && int(tag.DataSize) == len(tag.Data) && tag.StreamID == 0 && tag.Filter == 0
+//@   assert[call:WriteFlvTag] len(tag.Data) == 9 + len(frame.Payload) && tag.Data[0]&0x0f == CodecIDAVC && tag.Data[1] == H2645PacketTypeNALU
+//@   assert[call:WriteFlvTag] (tag.Data[0]>>4 == FrameTypeKeyFrame) == (frame.Payload[0]&0x1f == 5) && (tag.Data[0]>>4 == FrameTypeKeyFrame || tag.Data[0]>>4 == FrameTypeInterFrame)
+//@   assert[call:WriteFlvTag] be24(tag.Data, 2) == uint32(frame.Pts/1000000 - frame.Dts/1000000) & 0xffffff
+//@   assert[call:WriteFlvTag] int(be32(tag.Data, 5)) == len(frame.Payload) && forall(i, 0, len(frame.Payload), tag.Data[9+i] == frame.Payload[i])
+//@   ensures len(ghostSeq(h264p.tagWriter, "tags")) == old(len(ghostSeq(h264p.tagWriter, "tags"))) + 1
+
+// H.265: as above with codec id 12 and the key-frame flag exactly for IRAP units (types 16..21)
+//@ func (h265p *h265Packetizer) Packetize(frame *codec.Frame) (err error)
+//@   requires h265p != nil && h265p.tagWriter != nil && frame != nil && len(frame.Payload) >= 1 && len(frame.Payload) < 1<<24
+//@   modifies ghostSeq(h265p.tagWriter, "tags")
+//@   local tag *Tag
+//@   assert[call:WriteFlvTag] tag != nil && tag.TagType == TagTypeVideo && tag.Timestamp == uint32(frame.Dts/1000000) && int(tag.DataSize) == len(tag.Data) && tag.StreamID == 0 && tag.Filter == 0
+//@   assert[call:WriteFlvTag] len(tag.Data) == 9 + len(frame.Payload) && tag.Data[0]&0x0f == CodecIDHEVC && tag.Data[1] == H2645PacketTypeNALU
+//@   assert[call:WriteFlvTag] (tag.Data[0]>>4 == FrameTypeKeyFrame) == ((frame.Payload[0]>>1)&0x3f >= 16 && (frame.Payload[0]>>1)&0x3f <= 21) && (tag.Data[0]>>4 == FrameTypeKeyFrame || tag.Data[0]>>4 == FrameTypeInterFrame)
+//@   assert[call:WriteFlvTag] be24(tag.Data, 2) == uint32(frame.Pts/1000000 - frame.Dts/1000000) & 0xffffff
+//@   assert[call:WriteFlvTag] int(be32(tag.Data, 5)) == len(frame.Payload) && forall(i, 0, len(frame.Payload), tag.Data[9+i] == frame.Payload[i])
+//@   ensures len(ghostSeq(h265p.tagWriter, "tags")) == old(len(ghostSeq(h265p.tagWriter, "tags"))) + 1
+
+// AAC: one audio tag per frame holding the source frame verbatim as raw AAC data
+//@ func (ap *aacPacketizer) Packetize(frame *codec.Frame) (err error)
+//@   requires ap != nil && ap.tagWriter != nil && ap.dataTemplate != nil && ap.dataTemplate.SoundFormat == SoundFormatAAC && ap.dataTemplate.AACPacketType == AACPacketTypeRawData && frame != nil && len(frame.Payload) < 1<<24
+//@   modifies ghostSeq(ap.tagWriter, "tags")
+//@   local tag *Tag
+//@   assert[call:WriteFlvTag] tag != nil && tag.TagType == TagTypeAudio && tag.Timestamp == uint32(frame.Pts/1000000) && int(tag.DataSize) == len(tag.Data) && tag.StreamID == 0 && tag.Filter == 0
+//@   assert[call:WriteFlvTag] len(tag.Data) == 2 + len(frame.Payload) && tag.Data[0]>>4 == SoundFormatAAC && tag.Data[1] == AACPacketTypeRawData && forall(i, 0, len(frame.Payload), tag.Data[2+i] == frame.Payload[i])
+//@   ensures len(ghostSeq(ap.tagWriter, "tags")) == old(len(ghostSeq(ap.tagWriter, "tags"))) + 1
+
+// ---- decoder configuration (sequence header) tags: built from the stream's actual parameter sets --------------------
+//@ spec func be16(b []byte, o int) int = int(b[o])<<8 | int(b[o+1])
+// AVCDecoderConfigurationRecord (ISO 14496-15 5.2.4.1): version, profile / compatibility / level, 4-byte NAL lengths,
+// one SPS and one PPS, each length-prefixed and verbatim
+//@ func (record *AVCDecoderConfigurationRecord) Marshal() (out []byte, err error)
+//@   requires record != nil && len(record.SPS) < 1<<16 && len(record.PPS) < 1<<16
+//@   modifies
+//@   fresh out
+//@   ensures err == nil && len(out) == 11 + len(record.SPS) + len(record.PPS)
+//@   ensures out[0] == record.ConfigurationVersion && out[1] == record.AVCProfileIndication && out[2] == record.ProfileCompatibility && out[3] == record.AVCLevelIndication && out[4] == 0xff && out[5] == 0xe1
+//@   ensures be16(out, 6) == len(record.SPS) && forall(i, 0, len(record.SPS), out[8+i] == record.SPS[i])
+//@   ensures out[8+len(record.SPS)] == 1 && be16(out, 9+len(record.SPS)) == len(record.PPS) && forall(i, 0, len(record.PPS), out[11+len(record.SPS)+i] == record.PPS[i])
+// the H.264 sequence header tag: key frame / AVC / sequence header / composition time 0 / timestamp 0, carrying the
+// configuration record of the SPS and PPS the stream currently has
+//@ func (h264p *h264Packetizer) PacketizeSequenceHeader() (err error)
+//@   requires h264p != nil && h264p.tagWriter != nil && h264p.meta != nil && len(h264p.meta.Sps) >= 4 && len(h264p.meta.Sps) < 1<<16 && len(h264p.meta.Pps) < 1<<16
+//@   modifies ghostSeq(h264p.tagWriter, "tags")
+//@   local tag *Tag
+//@   assert[call:WriteFlvTag] tag != nil && tag.TagType == TagTypeVideo && tag.Timestamp == 0 && int(tag.DataSize) == len(tag.Data) && tag.StreamID == 0 && tag.Filter == 0
+//@   assert[call:WriteFlvTag] len(tag.Data) == 5 + 11 + len(h264p.meta.Sps) + len(h264p.meta.Pps) && tag.Data[0] == (FrameTypeKeyFrame<<4)|CodecIDAVC && tag.Data[1] == H2645PacketTypeSequenceHeader && be24(tag.Data, 2) == 0
+//@   assert[call:WriteFlvTag] tag.Data[5] == 1 && tag.Data[6] == h264p.meta.Sps[1] && tag.Data[7] == h264p.meta.Sps[2] && tag.Data[8] == h264p.meta.Sps[3] && tag.Data[9] == 0xff && tag.Data[10] == 0xe1
+//@   assert[call:WriteFlvTag] be16(tag.Data, 11) == len(h264p.meta.Sps) && forall(i, 0, len(h264p.meta.Sps), tag.Data[13+i] == h264p.meta.Sps[i])
+//@   assert[call:WriteFlvTag] tag.Data[13+len(h264p.meta.Sps)] == 1 && be16(tag.Data, 14+len(h264p.meta.Sps)) == len(h264p.meta.Pps) && forall(i, 0, len(h264p.meta.Pps), tag.Data[16+len(h264p.meta.Sps)+i] == h264p.meta.Pps[i])
+//@   ensures len(ghostSeq(h264p.tagWriter, "tags")) == old(len(ghostSeq(h264p.tagWriter, "tags"))) + 1
+// the AAC sequence header tag: AudioSpecificConfig of the stream verbatim
+//@ func (ap *aacPacketizer) PacketizeSequenceHeader() (err error)
+//@   requires ap != nil && ap.tagWriter != nil && ap.meta != nil && ap.dataTemplate != nil && ap.dataTemplate.SoundFormat == SoundFormatAAC && len(ap.meta.Sps) < 1<<16
+//@   modifies ghostSeq(ap.tagWriter, "tags")
+//@   local tag *Tag
+//@   assert[call:WriteFlvTag] tag != nil && tag.TagType == TagTypeAudio && tag.Timestamp == 0 && int(tag.DataSize) == len(tag.Data) && tag.StreamID == 0
+//@   assert[call:WriteFlvTag] len(tag.Data) == 2 + len(ap.meta.Sps) && tag.Data[0]>>4 == SoundFormatAAC && tag.Data[1] == AACPacketTypeSequenceHeader && forall(i, 0, len(ap.meta.Sps), tag.Data[2+i] == ap.meta.Sps[i])
+//@   ensures len(ghostSeq(ap.tagWriter, "tags")) == old(len(ghostSeq(ap.tagWriter, "tags"))) + 1
